@@ -10,3 +10,6 @@ for P in "$@"; do
   echo "$(basename $D) $P exit=$rc $(grep -c '^VIOLATION' $D/run_$P.log) violation line(s): $(grep '^VIOLATION' $D/run_$P.log | head -2 | sed 's/replay=[^ ]*//' | tr '\n' ' ')"
 done
 git -C /repo checkout -- .
+# the runs above rewrote evidence/<id>.json for the broken tree: put the committed evidence back
+git -C /verif checkout -- evidence 2>/dev/null
+rm -f /verif/evidence/replay/C*-*.json
